@@ -105,7 +105,24 @@ def run_session(rnd, w, dumps, kinds, gen_cfg, nacts=14, max_gens=4, scenarios=N
         f.seek(0)
         return f
 
+    def do_other():
+        # ANOTHER object of the caller lists another dump completely (one whose thread map declares the same threads for other
+        # processes): it has its own tables - nothing the session's object reports may change (no action is recorded: the
+        # specification has nothing to do for it)
+        from .pipeline import Dump
+        q = PyKdebugParser()
+        q.color = False
+        d_ = Dump(w, list(rnd.choice(dumps).stream[:6]), [(t_, 900 + t_, 'elsewhere') for t_ in (1, 2, 3)])
+        try:
+            for _ in getattr(q, rnd.choice(['formatted_traces', 'formatted_kevents', 'callstacks']))(io.BytesIO(d_.blob)):
+                pass
+        except Exception:
+            pass
+        script.append('ANOTHER object lists another dump (threads 1-3 -> processes 901-903 "elsewhere")')
+
     def do_badopen():
+        if rnd.random() < 0.5:
+            do_other()
         kind = rnd.choice(kinds)
         junk = rnd.choice([b'', b'\x00', b'\x00\x02\xaa', b'\x00\x04\xaa\x55' + bytes(400), b'not a dump at all', bytes(rnd.getrandbits(8) for _ in range(300))])
         a = {'op': 'badopen', 'kind': kind}
@@ -142,6 +159,8 @@ def run_session(rnd, w, dumps, kinds, gen_cfg, nacts=14, max_gens=4, scenarios=N
         script.append('drop #%d' % (gi + 1))
 
     def do_open(kind=None, d=None, codes=None):
+        if schedule is None and any(g_[3] for g_ in gens) and rnd.random() < 0.25:
+            do_other()                      # while listings of this object are in flight
         kind = kind or rnd.choice(kinds)
         d = rnd.randrange(len(dumps)) if d is None else d % len(dumps)
         codes = codes or (rnd.choice(['A', 'B']) if kind == 'fkev' else '-' if kind in ('kev', 'logs') else 'W')
@@ -342,8 +361,9 @@ SESSION_OWN = {'C07': set(), 'C06': _SEL | {'process-column'}, 'C12': _SEL, 'C13
 
 def session_own(ctx, clause, kind):
     cl = clause.partition('@')[0].partition(':')[0]
+    import os
     own = SESSION_OWN.get(ctx.prop)
-    if own is None or cl.startswith('raised') or cl.startswith('harness'):
+    if os.environ.get('VERIF_ALL_CLAUSES') or own is None or cl.startswith('raised') or cl.startswith('harness'):
         return True
     if ctx.prop == 'C15' and kind not in ('cs', ''):
         return False
